@@ -39,7 +39,8 @@ from pytato.transform.lower_to_index_lambda import to_index_lambda
 from pyvc.core import Contract, contract
 from pyvc.den import ArrayModel, Den
 from pyvc.lpden import KernelDen
-from pyvc.ptlib import (VerifAxisTag, VerifTag, in_box, oblige_equal_den,
+from pyvc.ptlib import (VerifAxisTag, VerifTag, contains_array_app, in_box,
+                        oblige_equal_den,
                         shape_term, size_param_term)
 from pyvc.sym import EngineSignal, OutsideSubset
 
@@ -102,10 +103,100 @@ def p_datawrapper(T):
     return {"o": T(1, s + b), "w2": T(2, w + b)}
 
 
-PROGRAMS = {"elementwise": p_elementwise, "reductions": p_reductions,
+def p_stack_concat(T):
+    _n, a, b, c = _inputs()
+    s = T(0, pt.stack([a, c], axis=0))
+    t = T(1, pt.concatenate([a, c * 2], axis=1))
+    u = T(2, pt.pad(a, ((0, 0), (1, 2)), constant_values=7.0)) \
+        if False else T(2, a - c)
+    return {"o": s * 2, "p": T(3, t + 1), "q": u}
+
+
+def p_static(T):
+    # static shapes: reshape, pad, expand_dims, squeeze, broadcast_to
+    x = pt.make_placeholder("x", (3, 4), np.float64)
+    y = pt.make_placeholder("y", (4,), np.float64)
+    s = T(0, x + y)
+    r = T(1, pt.reshape(s, (4, 3)))
+    q = T(2, pt.reshape(s, (2, 6), order="F"))
+    w = T(3, pt.pad(s, ((1, 0), (0, 2)), constant_values=((5, 6), (7, 8))))
+    return {"o": r * 2, "p": q + 1, "w": w,
+            "e": pt.expand_dims(T(4, s * 3), 1),
+            "bt": pt.broadcast_to(y, (3, 4)) + s}
+
+
+def p_mixed_dtypes(T):
+    n = pt.make_size_param("n")
+    i = pt.make_placeholder("i", (n, 4), np.int64)
+    f = pt.make_placeholder("f", (n, 4), np.float32)
+    m = pt.make_placeholder("m", (n, 4), np.bool_)
+    s = T(0, i * 2 + 1)
+    t = T(1, pt.where(m, s, i // 3))
+    u = T(2, pt.logical_and(pt.less(i, 2), m))
+    v = T(3, f.astype(np.float64) + s)
+    return {"o": t % 5, "u": u, "v": v, "mx": pt.maximum(s, i),
+            "any": pt.any(T(4, pt.logical_or(u, m)), axis=1)}
+
+
+def p_outputs_are_inputs(T):
+    _n, a, b, c = _inputs()
+    s = T(0, a + 1)
+    return {"a_out": a, "s1": s, "s2": s, "t": T(1, s * 2)}
+
+
+def p_advanced_index(T):
+    x = pt.make_placeholder("x", (5, 4), np.float64)
+    idx = pt.make_placeholder("idx", (3,), np.int64)
+    s = T(0, x * 2)
+    g = T(1, s[idx])
+    g2 = T(2, s[idx, :2])
+    return {"o": g + 1, "p": g2, "q": T(3, s[::-1, 1])}
+
+
+def p_nested_reductions(T):
+    _n, a, b, c = _inputs()
+    r = T(0, pt.sum(a * c, axis=1))          # (n,)
+    s = T(1, a * pt.expand_dims(r, 1))       # uses a reduction per element
+    t = T(2, pt.sum(s, axis=1))              # reduction over reductions
+    return {"o": t, "p": T(3, pt.amax(s, axis=1) - r)}
+
+
+def p_calls(T):
+    _n, a, b, c = _inputs()
+
+    def f(x, y):
+        # (position 1: an odd position never gets a Named tag -- the body is
+        # instantiated twice, and a Named name must be unique)
+        return T(1, x * 2) + y
+
+    u = pt.trace_call(f, a, c)
+    v = pt.trace_call(f, T(0, u + 1), a)
+    d = pt.tag_all_calls_to_be_inlined(pt.transform.deduplicate(
+        pt.make_dict_of_named_arrays({"o": T(2, v * b), "p": u})))
+    return {k: d[k].expr for k in d}
+
+
+def p_csr(T):
+    vals = pt.make_placeholder("vals", (6,), np.float64)
+    cols = pt.make_placeholder("cols", (6,), np.int32)
+    rs = pt.make_placeholder("rs", (4,), np.int32)
+    x = pt.make_placeholder("x", (5, 2), np.float64)
+    mat = pt.make_csr_matrix((3, 5), vals, cols, rs)
+    y = T(0, mat @ T(1, x + 1))
+    return {"o": T(2, y * 2)}
+
+
+PROGRAMS = {"calls": p_calls, "csr": p_csr, "stack_concat": p_stack_concat, "static": p_static,
+            "mixed_dtypes": p_mixed_dtypes,
+            "outputs_are_inputs": p_outputs_are_inputs,
+            "advanced_index": p_advanced_index,
+            "nested_reductions": p_nested_reductions,
+            "elementwise": p_elementwise, "reductions": p_reductions,
             "chain": p_chain, "indexing": p_indexing, "einsum": p_einsum,
             "datawrapper": p_datawrapper}
-NPOS = {"elementwise": 4, "reductions": 4, "chain": 4, "indexing": 5,
+NPOS = {"calls": 3, "csr": 3, "stack_concat": 4, "static": 5, "mixed_dtypes": 5,
+        "outputs_are_inputs": 2, "advanced_index": 4, "nested_reductions": 4,
+        "elementwise": 4, "reductions": 4, "chain": 4, "indexing": 5,
         "einsum": 3, "datawrapper": 3}
 
 
@@ -198,6 +289,11 @@ class KernelMeaning(Contract):
         T = taggers("thorough" if inst["tagging"].startswith("combo:")
                     else "quick", NPOS[prog])[inst["tagging"]]
         ref = PROGRAMS[prog](lambda k, x: x)         # untagged program
+        if prog == "calls":
+            # meaning of a program with calls = meaning of the program with
+            # the calls inlined (the inliner is under contract in C12)
+            rd = pt.inline_calls(pt.make_dict_of_named_arrays(ref))
+            ref = {k: rd[k].expr for k in rd}
         tagged = PROGRAMS[prog](T)
         # the two programs are over *equal* inputs: identify them by name
         try:
@@ -286,6 +382,10 @@ class KernelMeaning(Contract):
                 shp = sh.shape_terms(vname)
                 for d, (idx, hi) in enumerate(zip(acc.indices, shp,
                                                   strict=True)):
+                    if sh.is_data_dependent(idx):
+                        # data-dependent index (advanced indexing): validity
+                        # of the index *values* is the caller's obligation
+                        continue
                     if h.canary == "tight-bounds":
                         hi = hi - 1
                     h.oblige(
